@@ -691,22 +691,22 @@ func ruleNestedReset(p *Program, r *Report, rule string, list []stateType) {
 				continue
 			}
 			// resetOf(g): barrier for "field g of the receiver is reset or replaced here"
-			var resetOf func(g string, depth int) func(in ssa.Instruction) bool
+			var resetOf func(cfn *ssa.Function, crecv ssa.Value, g string, depth int) func(in ssa.Instruction) bool
 			// a call of a method named Reset/reset on the field value, or a store of a fresh value into it, on every success path
-			barrierFor := func(fname string, depth int) func(in ssa.Instruction) bool {
+			barrierFor := func(cfn *ssa.Function, crecv ssa.Value, fname string, depth int) func(in ssa.Instruction) bool {
 				return func(in ssa.Instruction) bool {
 					switch x := in.(type) {
 					case *ssa.Store:
 						root, sel := accessPath(x.Addr)
-						if root == recv && sel == "."+fname {
+						if root == crecv && sel == "."+fname {
 							if p.isFresh(x.Val) {
 								return true
 							}
 							// another field of the receiver that has definitely been reset/replaced since entry (rBuf = own)
 							if depth < 2 {
 								for _, leaf := range p.valueSources(x.Val) {
-									if r2, s2, isL := fieldLoad(leaf); isL && r2 == recv && s2 != sel && strings.Count(s2, ".") == 1 {
-										if stale, _, _ := (PathQuery{Target: func(y ssa.Instruction) bool { return y == ssa.Instruction(x) }, Barrier: resetOf(s2[1:], depth+1)}).Find(reset); !stale {
+									if r2, s2, isL := fieldLoad(leaf); isL && r2 == crecv && s2 != sel && strings.Count(s2, ".") == 1 {
+										if stale, _, _ := (PathQuery{Target: func(y ssa.Instruction) bool { return y == ssa.Instruction(x) }, Barrier: resetOf(cfn, crecv, s2[1:], depth+1)}).Find(cfn); !stale {
 											return true
 										}
 									}
@@ -734,7 +734,7 @@ func ruleNestedReset(p *Program, r *Report, rule string, list []stateType) {
 							name, on = fcal.Name(), com.Args[0]
 						} else if fcal := com.StaticCallee(); fcal != nil {
 							// a helper of the same receiver that performs the reset (gzip init, readHeader)
-							if len(com.Args) > 0 && com.Args[0] == recv && fcal.Blocks != nil {
+							if len(com.Args) > 0 && com.Args[0] == crecv && fcal.Blocks != nil {
 								for _, sel := range p.Effects().ParamWrites(fcal, 0) {
 									if strings.HasPrefix(sel, "."+fname) {
 										return true
@@ -745,14 +745,21 @@ func ruleNestedReset(p *Program, r *Report, rule string, list []stateType) {
 						}
 						if (name == "Reset" || name == "reset") && on != nil {
 							root, sel := accessPath(on)
-							if root == recv && (sel == "."+fname || sel == "."+fname+"^") {
+							if root == crecv && (sel == "."+fname || sel == "."+fname+"^") {
 								return true
 							}
 						}
 						// helper method of the same receiver
-						if fcal := com.StaticCallee(); fcal != nil && fcal.Blocks != nil && len(com.Args) > 0 && com.Args[0] == recv && fcal != reset {
+						if fcal := com.StaticCallee(); fcal != nil && fcal.Blocks != nil && len(com.Args) > 0 && com.Args[0] == crecv && fcal != cfn {
 							for _, sel := range p.Effects().ParamWrites(fcal, 0) {
 								if strings.HasPrefix(sel, "."+fname) && len(sel) > len(fname)+1 {
+									return true
+								}
+							}
+							// a helper that resets or replaces the field itself on every path to its return
+							if depth < 2 && len(fcal.Params) > 0 {
+								isRet := func(y ssa.Instruction) bool { _, ok := y.(*ssa.Return); return ok }
+								if open, _, _ := (PathQuery{Target: isRet, Barrier: resetOf(fcal, fcal.Params[0], fname, depth+1)}).Find(fcal); !open {
 									return true
 								}
 							}
@@ -762,7 +769,7 @@ func ruleNestedReset(p *Program, r *Report, rule string, list []stateType) {
 				}
 			}
 			resetOf = barrierFor
-			barrier := barrierFor(f.Name(), 0)
+			barrier := barrierFor(reset, recv, f.Name(), 0)
 			edgeOK := func(a, b *ssa.BasicBlock) bool {
 				br, ok := edgeCond(a, b)
 				if !ok {
